@@ -670,6 +670,10 @@ pub fn oracle_c10(rng: &mut Rng, tier: &str) -> Report {
     }
     mappings.push(crate::gens::threshold_mapping(130));
     mappings.push(crate::gens::threshold_mapping(300));
+    mappings.push(crate::gens::threshold_mapping(600));
+    mappings.push(crate::gens::threshold_mapping(4097));
+    mappings.push(crate::gens::nonmonotone_mapping(600));
+    mappings.push(crate::gens::nonmonotone_mapping(1030));
     mappings.push(crate::gens::boundary_mapping());
     for (mi, text) in mappings.iter().enumerate() {
         let u = universe(text);
@@ -847,6 +851,46 @@ fn c14_mappings(seed: u64, tier: &str) -> Vec<Vec<u8>> {
     v.push(crate::gens::threshold_mapping(130));
     v.push(crate::gens::threshold_mapping(300));
     v.push(crate::gens::boundary_mapping());
+    // section sizes at "buffer of 2^m bytes" boundaries: floor/ceil(2^m / 36), (2^m / 28), odd multiples
+    let mut counts: Vec<usize> = Vec::new();
+    for m in 8..=19u32 {
+        for rec in [36usize, 28] {
+            let f = (1usize << m) / rec;
+            for c in [f, f + 1, 3 * f, 3 * f + 1] {
+                if c <= 22000 {
+                    counts.push(c);
+                }
+            }
+        }
+        for c in [(1usize << m) - 1, 1usize << m, (1usize << m) + 1] {
+            if c <= 22000 {
+                counts.push(c);
+            }
+        }
+    }
+    counts.sort();
+    counts.dedup();
+    for &c in &counts {
+        if !thorough(tier) && c > 300 && (c * 2654435761usize) % 3 != (seed as usize) % 3 && c != 7281 && c != 21843 {
+            continue;
+        }
+        let mut t = String::with_capacity(c * 36 + 32);
+        t.push_str("o.N -> n:\n");
+        for i in 0..c {
+            t.push_str(&format!("    void m{}(int) -> a{}\n", i, i % 3));
+        }
+        v.push(t.into_bytes());
+    }
+    // one class with very many distinct methods (collision-prone fingerprints, counter widths)
+    {
+        let n = if thorough(tier) { 400_000 } else { 150_000 };
+        let mut t = String::with_capacity(n * 30);
+        t.push_str("o.H -> h:\n");
+        for i in 0..n {
+            t.push_str(&format!("    void m{}(p{}) -> a\n", i, i % 1000));
+        }
+        v.push(t.into_bytes());
+    }
     // many classes / many distinct strings (hash-map growth thresholds)
     let mut t = String::new();
     for i in 0..1500 {
